@@ -23,7 +23,8 @@ package zapcore
 import "sync"
 
 type lazyWithCore struct {
-	Core
+	core         Core
+	originalCore Core
 	sync.Once
 	fields []Field
 }
@@ -32,23 +33,41 @@ type lazyWithCore struct {
 // the logger is written to (or is further chained in a lon-lazy manner).
 func NewLazyWith(core Core, fields []Field) Core {
 	return &lazyWithCore{
-		Core:   core,
-		fields: fields,
+		core:         nil, // core is allocated once `initOnce` is called.
+		originalCore: core,
+		fields:       fields,
 	}
 }
 
 func (d *lazyWithCore) initOnce() {
 	d.Once.Do(func() {
-		d.Core = d.Core.With(d.fields)
+		d.core = d.originalCore.With(d.fields)
 	})
 }
 
 func (d *lazyWithCore) With(fields []Field) Core {
 	d.initOnce()
-	return d.Core.With(fields)
+	return d.core.With(fields)
 }
 
 func (d *lazyWithCore) Check(e Entry, ce *CheckedEntry) *CheckedEntry {
+	// This is safe because `Enabled` is always called before `Check`.
 	d.initOnce()
-	return d.Core.Check(e, ce)
+	return d.core.Check(e, ce)
+}
+
+func (d *lazyWithCore) Enabled(level Level) bool {
+	// Init not needed: the level does not depend on the fields, and reading
+	// the original core never races with the one-time initialization.
+	return d.originalCore.Enabled(level)
+}
+
+func (d *lazyWithCore) Write(e Entry, fields []Field) error {
+	d.initOnce()
+	return d.core.Write(e, fields)
+}
+
+func (d *lazyWithCore) Sync() error {
+	d.initOnce()
+	return d.core.Sync()
 }
